@@ -364,6 +364,7 @@ type vkRunResult struct {
 	step      string // which ask failed
 	fired     []bool // per tamper: scripted exchange occurred and changed the response
 	upstream  int
+	disturbed bool
 	elapsed   []string
 	outcomes  []string
 	firstPath []authsim.Query
@@ -381,8 +382,26 @@ func (w *vkWorld) transformer(tm vkTamper) authsim.Transformer {
 	}
 }
 
-// vkRun executes one scenario from a cold state and judges every reply of its history.
+// vkRun executes one scenario; a run during which some ask took longer than any scripted
+// behaviour can explain (C01 scripts no delays or drops, so only a lost loopback datagram or a
+// starved process makes the resolver wait out its 400 ms upstream timeout) is discarded and
+// repeated, so that only undisturbed executions are judged.
 func (w *vkWorld) vkRun(s vkScenario, history bool) vkRunResult {
+	for try := 0; ; try++ {
+		r := w.vkRunOnce(s, history)
+		if !r.disturbed {
+			return r
+		}
+		if try == 3 {
+			w.c.Add("disturbed_kept", 1)
+			return r
+		}
+		w.c.Add("disturbed_reruns", 1)
+	}
+}
+
+// vkRunOnce executes one scenario from a cold state and judges every reply of its history.
+func (w *vkWorld) vkRunOnce(s vkScenario, history bool) vkRunResult {
 	if n := w.sim.Count(""); n != w.lastLog {
 		w.c.Add("straggler_scenarios", 1)
 		w.c.Note(fmt.Sprintf("upstream traffic after the last reply of a scenario (%d late queries): %s", n-w.lastLog, w.lastScen))
@@ -401,6 +420,9 @@ func (w *vkWorld) vkRun(s vkScenario, history bool) vkRunResult {
 		w.c.Add("evaluations", 1)
 		res.upstream += r.Upstream
 		res.elapsed = append(res.elapsed, r.Elapsed.Round(time.Millisecond).String())
+		if r.Elapsed > 300*time.Millisecond {
+			res.disturbed = true
+		}
 		v := w.vkJudge(q, r, s.NoAnchors)
 		res.outcomes = append(res.outcomes, v.Outcome)
 		if v.Viol != "" {
@@ -462,20 +484,39 @@ func (w *vkWorld) vkReport(s vkScenario, r vkRunResult) {
 		c.Note(fmt.Sprintf("dropped (reproduced %d/5): %s: %s", n, s, r.verdict.Viol[:min(len(r.verdict.Viol), 200)]))
 		return
 	}
-	c.Violation(vkKey(s, r.verdict.Class), fmt.Sprintf("%s — scenario: %s; expected: SERVFAIL(+EDE) or the zone model's data with AD only when authentic; path: %s", msg, s, vkPathStr(r.firstPath)), s)
+	c.Violation(w.vkKey(s, r.verdict.Class), fmt.Sprintf("%s — scenario: %s; expected: SERVFAIL(+EDE) or the zone model's data with AD only when authentic; path: %s", msg, s, vkPathStr(r.firstPath)), s)
 }
 
-// vkKey is the stable id of a failing input: violation class, tamper kinds and
-// the (server, question type) they hit, and the client question without flags.
-func vkKey(s vkScenario, class string) string {
+// vkKey is the stable id of a failing input: the violation class plus, per tamper, its kind and
+// the zone and shape (dnskey / referral / negative / answer) of the upstream response it rewrote.
+// The client question and flags are in the message and the replay, not in the key, so that one
+// defect in the resolver maps to a handful of keys rather than to one per query of the alphabet.
+func (w *vkWorld) vkKey(s vkScenario, class string) string {
+	if strings.HasPrefix(class, "servfail-without-ede") {
+		return class // the class already names the mechanism (what the EDE-less SERVFAIL carries)
+	}
 	var t []string
 	for _, x := range s.Tampers {
-		t = append(t, fmt.Sprintf("%s@%s<-%s/%s", x.Kind, x.Key.Server, x.Key.QName, dns.TypeToString[x.Key.QType]))
+		zone, role := "?", "?"
+		if z := w.u.HostedZone(x.Key.Server, x.Key.QName, x.Key.QType); z != nil {
+			zone = z.Apex
+			h := w.u.ServerAnswer(x.Key.Server, dns.Question{Name: x.Key.QName, Qtype: x.Key.QType, Qclass: dns.ClassINET}, true)
+			switch {
+			case x.Key.QType == dns.TypeDNSKEY && len(h.Answer) > 0:
+				role = "dnskey"
+			case len(h.Answer) > 0:
+				role = "answer"
+			case hasSOA(h.Ns):
+				role = "negative"
+			default:
+				role = "referral"
+			}
+		}
+		t = append(t, fmt.Sprintf("%s@%s:%s", x.Kind, zone, role))
 	}
-	k := fmt.Sprintf("%s|%s/%s|%s", class, s.Q.Name, dns.TypeToString[s.Q.Type], strings.Join(t, "+"))
-	if strings.HasPrefix(class, "servfail-without-ede") {
-		// the class already names the mechanism (what the EDE-less SERVFAIL carries); one key per mechanism
-		k = class
+	k := class + "|" + strings.Join(t, "+")
+	if len(s.Tampers) == 0 {
+		k = fmt.Sprintf("%s|untampered:%s/%s", class, s.Q.Name, dns.TypeToString[s.Q.Type])
 	}
 	if s.NoAnchors {
 		k += "|no-anchors"
@@ -499,7 +540,7 @@ func TestVerifC01Tamper(t *testing.T) {
 		}
 		r := w.vkRun(s, true)
 		if r.verdict.Viol != "" {
-			c.Violation(vkKey(s, r.verdict.Class), r.step+": "+r.verdict.Viol+" — scenario: "+s.String()+"; path: "+vkPathStr(r.firstPath), s)
+			c.Violation(w.vkKey(s, r.verdict.Class), r.step+": "+r.verdict.Viol+" — scenario: "+s.String()+"; path: "+vkPathStr(r.firstPath), s)
 		}
 		return
 	}
@@ -542,7 +583,7 @@ func TestVerifC01Tamper(t *testing.T) {
 						break
 					}
 					w.vkQueryCases(rot, q, kinds)
-					if c.NumViolations() > 12 {
+					if c.NumViolations() > 30 {
 						return
 					}
 				}
@@ -608,7 +649,7 @@ func (w *vkWorld) vkQueryCases(rot int, q vkQuery, kinds []vkKind) {
 			c.Add("scenarios", 1)
 			if r.verdict.Viol != "" {
 				w.vkReport(s, r)
-				if c.NumViolations() > 12 {
+				if c.NumViolations() > 30 {
 					return
 				}
 				continue
@@ -660,26 +701,48 @@ func (w *vkWorld) vkKeyPairs(rot int, q vkQuery, path []authsim.Query) {
 			resigns = append(resigns, cand{pos, ex.Key(), z.Apex})
 		}
 	}
+	var scen []vkScenario
 	for _, k := range keys {
 		for _, r := range resigns {
-			if k.zone != r.zone {
-				continue
+			if k.zone == r.zone {
+				scen = append(scen, vkScenario{Rot: rot, Q: q, Tampers: []vkTamper{{Key: k.key, Kind: "attacker-key"}, {Key: r.key, Kind: "attacker-resign"}}})
 			}
-			s := vkScenario{Rot: rot, Q: q, Tampers: []vkTamper{{Key: k.key, Kind: "attacker-key"}, {Key: r.key, Kind: "attacker-resign"}}}
+		}
+	}
+	// the classic downgrade: a referral stripped of everything DNSSEC (position i), then unsigned
+	// forged data from any later exchange (position j > i)
+	for i, ex := range path {
+		honest := w.u.ServerAnswer(ex.Server, dns.Question{Name: ex.QName, Qtype: ex.QType, Qclass: dns.ClassINET}, ex.DO)
+		if len(honest.Answer) > 0 || hasSOA(honest.Ns) || honest.Rcode != dns.RcodeSuccess {
+			continue
+		}
+		for j := i + 1; j < len(path); j++ {
+			ej := path[j]
+			hj := w.u.ServerAnswer(ej.Server, dns.Question{Name: ej.QName, Qtype: ej.QType, Qclass: dns.ClassINET}, ej.DO)
+			cj := &vkTamperCtx{u: w.u, server: ej.Server, q: dns.Question{Name: ej.QName, Qtype: ej.QType, Qclass: dns.ClassINET}, zone: w.u.HostedZone(ej.Server, ej.QName, ej.QType)}
+			for _, kind := range []string{"forge-unsigned", "forge-positive"} {
+				if vkKindByName(kind).Fn(cj, hj.Copy()) {
+					scen = append(scen, vkScenario{Rot: rot, Q: q, Tampers: []vkTamper{{Key: ex.Key(), Kind: "downgrade"}, {Key: ej.Key(), Kind: kind}}})
+				}
+			}
+		}
+	}
+	for _, s := range scen {
+		{
 			res := w.vkRun(s, true)
 			c.Add("scenarios", 1)
 			c.Add("keypair_scenarios", 1)
 			if res.verdict.Viol != "" {
 				w.vkReport(s, res)
-				if c.NumViolations() > 12 {
+				if c.NumViolations() > 30 {
 					return
 				}
 				continue
 			}
 			if res.fired[0] && res.fired[1] {
-				c.DistinctStr("nontrivial", fmt.Sprintf("%d|%s|keypair|%d|%d", rot, q, k.pos, r.pos))
+				c.DistinctStr("nontrivial", fmt.Sprintf("%d|%s|pair|%s", rot, q, s))
 			}
-			c.Outcome("key+resign->" + res.outcomes[0])
+			c.Outcome(s.Tampers[0].Kind + "+" + s.Tampers[1].Kind + "->" + res.outcomes[0])
 		}
 	}
 }
@@ -738,7 +801,7 @@ func vkPairs(c *vkit.Ctx) {
 				c.Add("pair_scenarios", 1)
 				if r.verdict.Viol != "" {
 					w.vkReport(s, r)
-					if c.NumViolations() > 12 {
+					if c.NumViolations() > 30 {
 						return
 					}
 					continue
